@@ -282,7 +282,7 @@ func (x *Exec) callByContract(fr *Frame, st *State, callee *ssa.Function, c *Con
 	res := x.freshResults(st, "r."+relName(callee), callee.Signature.Results())
 	nf.results = res
 	for _, r := range x.evalClauses(nf, st, c.clauses("ensures", 0), nil, "ensures") {
-		x.ctx.assume(st, r.t)
+		x.assumeFact(st, r.t)
 	}
 	return res
 }
